@@ -15,9 +15,16 @@ def cfg_with(**kw):
     return c
 
 
+_NOISE = [0]
+
+
 def run_lines(drv, cfg, items, extra_ops=()):
     """items: [(lang, text)] single- or multi-line. -> list of results (one per item): the
     driver result dict of the execute op."""
+    # every fourth batch runs after a neutral piece of API history (see gen_hostile.config_ops); the flag is set on the caller's
+    # configuration object so that the witness ops the monitor builds afterwards reproduce it
+    _NOISE[0] += 1
+    cfg['noise'] = (_NOISE[0] % 4 == 0)
     cops = gh.config_ops(cfg) + list(extra_ops)
     ops = cops + [{'op': 'execute', 'lang': lang, 'text': text} for (lang, text) in items]
     rs = drv.run(ops)
